@@ -332,4 +332,260 @@ Section OpsSafe.
     unfold auto_assign. apply safe_act; [exact I|]. intros H' rs E HO OK.
     destruct rs; try (sret; constructor). apply aa_loop_safe. constructor.
   Qed.
+
+  (* AssignIP: the address is recorded for the handle in a written version of its block (unless the ordinal
+     lies outside the block's allocation array, which cannot happen for an address of the block) *)
+  Definition recorded_at (H : hist) (h tag a : N) : Prop :=
+    exists rev b, H rev = Some (KBlock (block_of cf a), VBlock b) /\
+      (owner_of b (ordinal_of b a) = Some {| at_handle := Some h; at_tag := tag |} \/
+       (length (bk_allocs b) <= ordinal_of b a)%nat).
+
+  Definition Paip (h tag a : N) (H : hist) (r : result) : Prop :=
+    match r with ResErr ENone => recorded_at H h tag a | _ => True end.
+
+  Lemma assign_ip_cont_safe fuel
+    (IH : forall H host h tag a, safe H (assign_ip_loop cf fuel host h tag a) (Paip h tag a)) :
+    forall H host h tag a b brev, known H (block_of cf a) b brev ->
+    safe H (match blk_assign b a h tag (cf_strict cf) host with
+            | inr e => Ret (ResErr (nz e))
+            | inl b' =>
+                i <- inc_handle (cf_retries cf) h (block_of cf a) 1 ;;
+                match i with
+                | inr _ => Ret (ResErr EOther)
+                | inl _ =>
+                    w <- update_block (block_of cf a) b' brev ;;
+                    match w with
+                    | inl _ => Ret (ResErr ENone)
+                    | inr EConflict =>
+                        if cf_aip_leak cf then assign_ip_loop cf fuel host h tag a
+                        else u_ <- dec_handle (cf_stale_cache cf) (cf_retries cf) h (block_of cf a) 1 None ;;
+                             assign_ip_loop cf fuel host h tag a
+                    | inr e => u_ <- dec_handle (cf_stale_cache cf) (cf_retries cf) h (block_of cf a) 1 None ;;
+                               Ret (ResErr (nz e))
+                    end
+                end
+            end) (Paip h tag a).
+  Proof.
+    intros H host h tag a b brev KN.
+    destruct (blk_assign b a h tag (cf_strict cf) host) as [b'|e] eqn:BA; [|destruct e; sret].
+    assert (BT : btrans b b') by (destruct (blk_assign_trans _ _ _ _ _ _ _ BA) as [[X _]|[X _]]; exact X).
+    sb inc_handle_safe. destruct r as [u|e]; [|sret].
+    sb safe_update_block; [eapply known_mono; eauto | exact BT |].
+    destruct r as [[b2 rev2]|e].
+    - sret. destruct P0 as [(KH & _ & _) ->]. exists rev2, (bump b'). split; [exact KH|].
+      destruct (blk_assign_trans _ _ _ _ _ _ _ BA) as [[_ OW]|[_ L]].
+      + left. replace (ordinal_of (bump b') a) with (ordinal_of b a).
+        * exact OW.
+        * unfold ordinal_of. simpl. destruct BT as [C _]. rewrite C. reflexivity.
+      + right. destruct BT as [C _]. unfold ordinal_of in *. simpl. rewrite C.
+        assert (LEN : length (bk_allocs b') = length (bk_allocs b)).
+        { clear - BA. unfold blk_assign in BA. destruct (negb (aff_check_ok b (cf_strict cf) host)); [discriminate|].
+          destruct (nth (ordinal_of b a) (bk_allocs b) None); [discriminate|].
+          destruct (find_or_add_attr _ _). inversion BA; subst; simpl. apply set_nth_opt_length. }
+        rewrite LEN. exact L.
+    - destruct e; try (sb dec_handle_safe; sret).
+      dif; [apply IH | sb dec_handle_safe; apply IH].
+  Qed.
+
+  Lemma assign_ip_loop_safe fuel : forall H host h tag a, safe H (assign_ip_loop cf fuel host h tag a) (Paip h tag a).
+  Proof.
+    induction fuel as [|f IH]; intros H host h tag a; simpl; [exact I|].
+    sb safe_get_block. destruct r as [[b brev]|e].
+    - apply (assign_ip_cont_safe f IH); exact P.
+    - destruct e; try sret.
+      sb get_pending_aff_safe. destruct r as [[st affrev]|e].
+      + sb claim_affine_block_safe. destruct r as [[b brev]|e].
+        * apply (assign_ip_cont_safe f IH); exact P1.
+        * destruct e; try sret. apply IH.
+      + destruct e; try sret. apply IH.
+  Qed.
+
+  Lemma dec_all_safe l : forall H c cache, safe H (dec_all cf l c cache) Ptrue.
+  Proof.
+    induction l as [|[h n] t IH]; intros H c cache; simpl; [exact I|].
+    sb dec_handle_safe. apply IH.
+  Qed.
+
+  Lemma release_loop_safe fuel : forall H c opts hint cache, safe H (release_loop cf fuel c opts hint cache) Ptrue.
+  Proof.
+    induction fuel as [|f IH]; intros H c opts hint cache; simpl; [exact I|].
+    sb safe_get_block. destruct r as [[b brev]|e]; [|destruct e; sret].
+    destruct (blk_release b opts) as [[[b' un] cnt]|e] eqn:BR; [|sret].
+    dif; [sret|].
+    eapply (@Cas.safeQ_bind key value lopt create_ok update_ok delete_ok VI) with (P := Ptrue).
+    { dif; [apply safe_delete_block|].
+      sb safe_update_block; [exact P | eapply blk_release_trans; eauto |]. destruct r; sret. }
+    cbv beta; intros H1 r E1 P1. destruct r as [u|e].
+    - sb dec_all_safe. sret.
+    - destruct e; try sret. apply IH.
+  Qed.
+
+  Lemma release_ips_safe H opts hint : safe H (release_ips cf opts hint) Ptrue.
+  Proof.
+    unfold release_ips. destruct opts as [|[a oh] t]; [sret|].
+    dif; [|apply release_loop_safe].
+    apply safe_act; [exact I|]. intros H' rs E HO OK. destruct rs; try sret. apply release_loop_safe.
+  Qed.
+
+  Lemma rbh_one_safe fuel : forall H c h, safe H (rbh_one cf fuel c h) Ptrue.
+  Proof.
+    induction fuel as [|f IH]; intros H c h; simpl; [exact I|].
+    sb safe_get_block. destruct r as [[b brev]|e]; [|destruct e; sret].
+    destruct (blk_release_by_handle b h) as [b' n] eqn:BR.
+    destruct n as [|n]; [sret|].
+    dif.
+    - sb safe_delete_block. destruct r as [u|e]; [sb dec_handle_safe; sret|].
+      destruct e; try sret; [sb dec_handle_safe; sret | apply IH].
+    - sb safe_update_block; [exact P | eapply blk_release_by_handle_trans; eauto |].
+      destruct r as [[b2 rev2]|e]; [sb dec_handle_safe; sret|].
+      destruct e; try sret. apply IH.
+  Qed.
+
+  Lemma rbh_blocks_safe cs : forall H h, safe H (rbh_blocks cf cs h) Ptrue.
+  Proof.
+    induction cs as [|c t IH]; intros H h; simpl; [exact I|].
+    sb rbh_one_safe. destruct r; [apply IH | sret].
+  Qed.
+
+  Lemma release_by_handle_safe H h hint : safe H (release_by_handle cf h hint) Ptrue.
+  Proof.
+    unfold release_by_handle. sb safe_get_handle. destruct r as [[m rev]|e]; [apply rbh_blocks_safe | sret].
+  Qed.
+
+  (* what a completed operation guarantees about its result *)
+  Definition op_post (o : op) (H : hist) (r : result) : Prop :=
+    match o with
+    | OpAutoAssign h tag _ => Pres h tag H r
+    | OpAssignIP h tag a => Paip h tag a H r
+    | _ => True
+    end.
+
+  Theorem compile_safe H host o : safe H (compile cf host o) (op_post o).
+  Proof.
+    destruct o; simpl.
+    - apply auto_assign_safe.
+    - apply assign_ip_loop_safe.
+    - apply release_ips_safe.
+    - apply release_by_handle_safe.
+  Qed.
+
+  (* a client = its operations in sequence; it returns every (operation, result) pair *)
+  Fixpoint run_ops (host : N) (ops : list op) : prog (list (op * result)) :=
+    match ops with
+    | [] => Ret []
+    | o :: t => Cas.bind (compile cf host o) (fun r =>
+                Cas.bind (run_ops host t) (fun rest => Ret ((o, r) :: rest)))
+    end.
+
+  Definition Qclient (H : hist) (l : list (op * result)) : Prop :=
+    Forall (fun p => op_post (fst p) H (snd p)) l.
+
+  Lemma recorded_at_mono H H' h tag a : hext H H' -> recorded_at H h tag a -> recorded_at H' h tag a.
+  Proof. intros E (rev & b & A & B). exists rev, b. auto. Qed.
+
+  Lemma op_post_mono o H H' r : hext H H' -> op_post o H r -> op_post o H' r.
+  Proof.
+    intros E. destruct o; simpl; auto.
+    - destruct r; simpl; auto. apply Forall_recorded_mono; auto.
+    - destruct r; simpl; auto. destruct e; auto. apply recorded_at_mono; auto.
+  Qed.
+
+  Lemma Qclient_mono : Cas.Qmono Qclient.
+  Proof.
+    intros H H' l E F. eapply Forall_impl; [|apply F]. intros [o r]. apply op_post_mono; auto.
+  Qed.
+
+  Lemma run_ops_safe host ops : forall H, safe H (run_ops host ops) Qclient.
+  Proof.
+    induction ops as [|o t IH]; intros H; simpl; [constructor|].
+    sb compile_safe. sb IH. sret. constructor; [|exact P0].
+    simpl. eapply op_post_mono; eauto.
+  Qed.
+
+  (* ---------------------------------------------------------------- the system: any number of clients *)
+  Definition sys0 (clients : list (N * list op)) : Cas.sys key value lopt (list (op * result)) :=
+    {| sy_store := init_store;
+       sy_clients := map (fun hc => CRun (run_ops (fst hc) (snd hc))) clients |}.
+
+  Definition hist0 : hist := fun _ => None.
+
+  Notation sys_ok := (@Cas.sys_ok key value lopt create_ok update_ok delete_ok VI (list (op * result)) Qclient).
+  Notation sys_run := (@Cas.sys_run key value lopt key_eqb key_ltb lmatch (list (op * result))).
+  Notation sys_step := (@Cas.sys_step key value lopt key_eqb key_ltb lmatch (list (op * result))).
+
+  Lemma sys0_ok clients : sys_ok (sys0 clients) hist0.
+  Proof.
+    split; [|split].
+    - split; simpl; [intros e []|intros r kv X; discriminate].
+    - intros r k v X; discriminate.
+    - simpl. apply Forall_forall. intros c Hin. apply in_map_iff in Hin. destruct Hin as ([host ops] & <- & _).
+      simpl. apply run_ops_safe.
+  Qed.
+
+  (* T1: in every reachable datastore, every block is stored under its own CIDR and satisfies the block
+     invariant: the FIFO of free ordinals has no duplicates and holds only ordinals that have no owner, so an
+     address that has an owner can never be handed out again before it is released; and each ordinal has at
+     most one owner attribute (owner_of is a function of the block). *)
+  Lemma reachable_blocks_wf clients evs e :
+    In e (st_ents (sy_store (sys_run (sys0 clients) evs))) ->
+    match e_key e, e_val e with
+    | KBlock c, VBlock b => I_b b /\ bk_cidr b = c
+    | KBlock _, _ => False
+    | _, _ => True
+    end.
+  Proof.
+    intros Hin.
+    apply (@Cas.safe_system_values key value lopt key_eqb key_ltb lmatch key_eqb_eq
+             create_ok update_ok delete_ok VI vi_create vi_update (list (op * result)) Qclient Qclient_mono
+             (sys0 clients) hist0 evs e (sys0_ok clients) Hin).
+  Qed.
+
+  (* T1, temporal half: every step of every execution changes the datastore by at most one allowed
+     transformation of the CURRENT value of one key; for a block that transformation keeps the invariant and
+     never changes the owner of an allocated address (it keeps its owner or becomes free). *)
+  Lemma reachable_step_effect clients evs ev :
+    Cas.effect key_eqb key_ltb create_ok update_ok delete_ok
+      (sy_store (sys_run (sys0 clients) evs)) (sy_store (sys_step (sys_run (sys0 clients) evs) ev)).
+  Proof.
+    apply (@Cas.safe_system_steps key value lopt key_eqb key_ltb lmatch key_eqb_eq
+             create_ok update_ok delete_ok VI vi_create vi_update (list (op * result)) Qclient Qclient_mono
+             (sys0 clients) hist0 evs ev (sys0_ok clients)).
+  Qed.
+
+  Lemma block_update_no_steal c b0 v : update_ok (KBlock c) (VBlock b0) v -> I_b b0 ->
+    exists b1, v = VBlock b1 /\ bk_cidr b1 = bk_cidr b0 /\ I_b b1 /\
+               forall o x, owner_of b0 o = Some x -> owner_of b1 o = Some x \/ owner_of b1 o = None.
+  Proof.
+    simpl. destruct v as [b1| |]; try tauto. intros [C T] I0. destruct (T I0) as [I1 F].
+    exists b1. split; [reflexivity|]. split; [exact C|]. split; [exact I1 | exact F].
+  Qed.
+
+  (* T2: when a client has completed its operations, every address returned by each of its AutoAssign calls
+     is recorded, for the caller's handle and attributes, in a version of its block that was really written
+     to the datastore (H' is a history of the writes that happened, consistent with the final store). *)
+  Lemma completed_results_recorded clients evs i l :
+    nth_error (sy_clients (sys_run (sys0 clients) evs)) i = Some (CRun (Ret l)) ->
+    exists H', Cas.store_hist (sy_store (sys_run (sys0 clients) evs)) H' /\ hist_ok H' /\
+      Forall (fun p => op_post (fst p) H' (snd p)) l.
+  Proof.
+    intros NE.
+    destruct (@Cas.safe_system_results key value lopt key_eqb key_ltb lmatch key_eqb_eq
+             create_ok update_ok delete_ok VI vi_create vi_update (list (op * result)) Qclient Qclient_mono
+             (sys0 clients) hist0 evs i l (sys0_ok clients) NE) as (H' & _ & SH & HO & Q).
+    exists H'. auto.
+  Qed.
 End OpsSafe.
+
+(* spelled-out form of the block invariant for the statement of c19_single_owner *)
+Lemma reachable_blocks_single_owner cf clients evs e c b :
+  In e (st_ents (sy_store (@Cas.sys_run key value lopt key_eqb key_ltb lmatch (list (op * result)) (sys0 cf clients) evs))) ->
+  e_key e = KBlock c -> e_val e = VBlock b ->
+  bk_cidr b = c /\ NoDup (bk_unalloc b) /\
+  (forall o, In o (bk_unalloc b) -> owner_of b o = None) /\
+  (forall o x y, owner_of b o = Some x -> owner_of b o = Some y -> x = y).
+Proof.
+  intros Hin EK EV. pose proof (reachable_blocks_wf cf clients evs e Hin) as W. rewrite EK, EV in W.
+  destruct W as [(ND & FREE & _) C]. split; auto. split; auto. split.
+  - intros o Ho. destruct (FREE o Ho) as [FN _]. unfold owner_of. rewrite FN. reflexivity.
+  - intros o x y A B. congruence.
+Qed.
